@@ -99,25 +99,20 @@ Qed.
 Definition file_table (r : entry) (cs : list entry) : list chunk :=
   mem_chunk r None :: map (fun c => mem_chunk c (Some (e_size r))) cs.
 
-Definition digest_ok (e : entry) : Prop := e_cdg e <> 0 \/ e_dg e = 0.
-
 Record file_conforming (r : entry) (cs : list entry) : Prop := {
   fc_reg : e_type r = TReg;
   fc_chunks : Forall (fun c => e_type c = TChunk /\ e_size c = 0) cs;
   fc_first : e_choff r = 0;
   fc_sorted : ssorted (file_table r cs);
   fc_tiles : tiles (file_table r cs) (e_size r);
-  fc_pos : Forall (fun c => 0 < c_size c) (file_table r cs);
-  fc_dg : Forall digest_ok (r :: cs)
+  fc_pos : Forall (fun c => 0 < c_size c) (file_table r cs)
 }.
 
-Lemma db_chunk_mem_chunk : forall e sz, digest_ok e -> (e_type e = TChunk \/ e_type e = TReg) ->
+Lemma db_chunk_mem_chunk : forall e sz, (e_type e = TChunk \/ e_type e = TReg) ->
   db_chunk e sz = mem_chunk e (Some sz).
 Proof.
-  intros e sz Hd Ht. unfold db_chunk, mem_chunk. f_equal.
-  - unfold db_chsize, mem_chsize. destruct Ht as [Ht|Ht]; rewrite Ht; simpl; reflexivity.
-  - unfold mem_dg. destruct (e_cdg e =? 0) eqn:E; [|reflexivity].
-    apply Z.eqb_eq in E. destruct Hd as [Hd|Hd]; [contradiction|]. rewrite E, Hd. reflexivity.
+  intros e sz Ht. unfold db_chunk, mem_chunk. f_equal.
+  unfold db_chsize, mem_chsize. destruct Ht as [Ht|Ht]; rewrite Ht; simpl; reflexivity.
 Qed.
 
 Lemma mem_chunk_reg : forall r lr, e_type r = TReg -> mem_chunk r lr = mem_chunk r None.
@@ -130,17 +125,17 @@ Proof.
   rewrite Z.gtb_ltb in E. apply Z.ltb_ge in E. lia.
 Qed.
 
-Lemma map_db_mem : forall sz cs, Forall (fun c => e_type c = TChunk /\ e_size c = 0) cs -> Forall digest_ok cs ->
+Lemma map_db_mem : forall sz cs, Forall (fun c => e_type c = TChunk /\ e_size c = 0) cs ->
   map (fun c => db_chunk c sz) cs = map (fun c => mem_chunk c (Some sz)) cs.
 Proof.
-  induction cs as [|c t IH]; intros Hc Hd; [reflexivity|]. simpl.
-  inversion Hc; subst. inversion Hd; subst. rewrite db_chunk_mem_chunk by tauto. f_equal. apply IH; assumption.
+  induction cs as [|c t IH]; intros Hc; [reflexivity|]. simpl.
+  inversion Hc; subst. rewrite db_chunk_mem_chunk by tauto. f_equal. apply IH; assumption.
 Qed.
 
 Lemma file_db_stored_table : forall r cs, file_conforming r cs -> file_db_stored r cs = file_table r cs.
 Proof.
-  intros r cs [Hr Hc H0 Hs Ht Hp Hd]. unfold file_db_stored, file_table.
-  inversion Hd as [|? ? Hdr Hdc]; subst. inversion Hp as [|? ? Hpr Hpc]; subst.
+  intros r cs [Hr Hc H0 Hs Ht Hp]. unfold file_db_stored, file_table.
+  inversion Hp as [|? ? Hpr Hpc]; subst.
   assert (Hsz : 0 < e_size r).
   { assert (c_choff (mem_chunk r None) < e_size r)
       by (apply (tiles_lt_size _ _ Hs Ht Hp); left; reflexivity).
@@ -148,13 +143,13 @@ Proof.
   destruct (e_size r >? 0) eqn:E; [|rewrite Z.gtb_ltb in E; apply Z.ltb_ge in E; lia].
   simpl. f_equal.
   - rewrite db_chunk_mem_chunk by (auto). apply mem_chunk_reg. exact Hr.
-  - assert (Hm := map_db_mem (e_size r) cs Hc Hdc).
+  - assert (Hm := map_db_mem (e_size r) cs Hc).
     rewrite Hm. apply filter_pos_id. exact Hpc.
 Qed.
 
 Lemma file_mem_ents_table : forall r c cs, file_conforming r (c :: cs) -> file_mem_ents r (c :: cs) = file_table r (c :: cs).
 Proof.
-  intros r c cs [Hr Hc H0 Hs Ht Hp Hd]. unfold file_mem_ents, file_table.
+  intros r c cs [Hr Hc H0 Hs Ht Hp]. unfold file_mem_ents, file_table.
   assert (Hlt : c_choff (mem_chunk c (Some (e_size r))) < e_size r).
   { apply (tiles_lt_size _ _ Hs Ht Hp). right. left. reflexivity. }
   simpl in Hs, Ht. destruct Hs as [Hs0 _]. destruct Ht as [Ht0 _].
@@ -202,7 +197,7 @@ Proof.
   - unfold file_mem_lookup, file_mem_ents. simpl map. rewrite app_nil_r.
     replace (Nat.ltb (length (if (e_chsize r >? 0) && (e_chsize r <? e_size r) then [mem_chunk r None] else [])) 2) with true
       by (destruct ((e_chsize r >? 0) && (e_chsize r <? e_size r)); reflexivity).
-    destruct H as [Hr Hc H0 Hs Ht Hp Hd]. unfold file_table in *. simpl map in *.
+    destruct H as [Hr Hc H0 Hs Ht Hp]. unfold file_table in *. simpl map in *.
     simpl in Ht. destruct Ht as [Ht _]. inversion Hp as [|? ? Hp0 _]; subst.
     rewrite chunk_search_single; [reflexivity|exact H0|exact Hp0|exact Hoff].
   - unfold file_mem_lookup. rewrite (file_mem_ents_table r c cs H). reflexivity.
@@ -256,7 +251,7 @@ Qed.
 (* a newly opened layer gets an id that is not live, and shows the filesystem of its own TOC *)
 Lemma l_open_fresh : forall d cands toc c, pick_id d cands 100 = Some c ->
   l_find c d = None /\ l_view (l_step d (LOpen cands toc)) c = (fun probes => match db_build toc with
-     | Some _ => view_db false toc probes | None => l_view [(c, d_init)] c probes end).
+     | Some _ => view_db toc probes | None => l_view [(c, d_init)] c probes end).
 Proof.
   intros d cands toc c H. split; [exact (pick_id_fresh _ _ _ _ H)|].
   unfold l_step. rewrite H. unfold l_view, view_db.
